@@ -39,11 +39,13 @@ MUTANTS['C12'] = {
                 msg = f'read {total_bytes} of {size} bytes'""", """            except socket.timeout:
                 self.rbuf = b''.join(chunks[:-1]) if len(chunks) > 2 else b''.join(chunks)
                 msg = f'read {total_bytes} of {size} bytes'""")], 'detect'),
-    'recv_size-generic-exc-drops-buffer': ([(SU, """            except Exception:
+    'recv_size-generic-exc-drops-buffer': ([(SU, """            except BaseException:
                 # received data is still buffered in the case of errors
+                # (incl. KeyboardInterrupt, gevent.Timeout, etc.)
                 self.rbuf = b''.join(chunks)
                 raise""", """            except ConnectionClosed:
                 # received data is still buffered in the case of errors
+                # (incl. KeyboardInterrupt, gevent.Timeout, etc.)
                 self.rbuf = b''.join(chunks)
                 raise""")], 'detect'),
     'netstring-msgsize-maxsize-short': ([(SU, "        self._msgsize_maxsize = len(str(maxsize)) + 1  # len(str()) == log10\n\n    def fileno",
@@ -526,13 +528,20 @@ MUTANTS['C04']['rename-failure-falls-back-to-copy'] = ([(FU, """        except O
                     pass  # avoid masking original error
             raise  # could not save destination file""")], 'detect')
 
-MUTANTS['C12']['recv_until-oserror-drops-buffer'] = ([(SU, """            except Exception:
+MUTANTS['C12']['recv_until-oserror-drops-buffer'] = ([(SU, """            except BaseException:
+                # incl. KeyboardInterrupt, gevent.Timeout, etc: never
+                # drop bytes that were already received
                 self.rbuf = bytes(recvd)
-                raise
-            val, self.rbuf""", """            except Error:
+                raise""", """            except Error:
                 self.rbuf = bytes(recvd)
-                raise
-            val, self.rbuf""")], 'detect')
+                raise""")], 'detect')
+MUTANTS['C12']['revert-cancellation-fix'] = ([(SU, """            except BaseException:
+                # incl. KeyboardInterrupt, gevent.Timeout, etc: never
+                # drop bytes that were already received
+                self.rbuf = bytes(recvd)
+                raise""", """            except Exception:
+                self.rbuf = bytes(recvd)
+                raise""")], 'detect')
 MUTANTS['C12']['send-trims-before-send'] = ([(SU, """                    sent = self.sock.send(sbuf[0])
                     total_sent += sent
                     sbuf[0] = sbuf[0][sent:]""", """                    chunk, sbuf[0] = sbuf[0][:4096], sbuf[0][4096:]
